@@ -211,6 +211,18 @@ CLAIMS['C05'] = dict(
          'One site outside the tables is a known finding (multi-line lambda bailout in initializationListUsage); two were repaired.',
     design='3/C05', note='Only the whitespace / blank-line / comment family is covered, and only as a necessary condition; renaming and reordering rewrites are not decided.')
 
+CLAIMS['C12'] = dict(
+    technique='static analysis: must-analysis (every path to a return) of the simplecpp::DUI producers, who-may-construct rule for the option block of simplecpp::preprocess/load, '
+              'guard-dominance of every insertion into simplecpp\'s macro table, exit census of the configuration loops of CppCheck::checkInternal, sibling agreement of the two '
+              'configuration-enumerator call sites',
+    text='Decides the plumbing of -D/-U and the exits of the configuration loop (necessary conditions): every option block handed to simplecpp comes from a producer that copies '
+         'Settings::userDefines into DUI::defines and Settings::userUndefs into DUI::undefined on every path; every insertion into the macro table of simplecpp::preprocess is guarded by a '
+         'lookup in DUI::undefined (for a predefined macro: of that name); the loops over the configurations of a file end early only under the terminate test or the '
+         '!force && n > maxConfigs test; the configuration enumerator receives -D and -U for the main file and for every included file and passes the -U set to every condition it reads. '
+         'One defect was repaired (predefined macros ignored -U).',
+    design='3/C12 and 8.2', note='Which configurations Preprocessor::getConfigs enumerates for a given conditional structure, the configuration strings, and simplecpp\'s evaluation of '
+                                 'conditions are value dependent and not decided.')
+
 # rules added while triaging seeded changes and replayed defects (see DESIGN.md 8.4/8.5); appended to the decided text of each claim
 EXTRA = {
     'C05': 'R05.2: token lists are rendered with line breaks / line numbers / file names only by the printers of the Token class. R05.3: a token line is compared with a '
@@ -269,7 +281,6 @@ NOT_APPLICABLE = {
     'C08': 'agreement with a reference compiler\'s name lookup over all programs (differential, not source analysis)',
     'C09': 'correctness of the conversion-rule computation over all operand type combinations is a function-correctness proof; the platform table it reads is decided under C10',
     'C11': 'output equivalence with a reference preprocessor over all sources',
-    'C12': 'configuration coverage is combinatorial behaviour of getConfigs on arbitrary conditional structures',
     'C31': 'path/glob matching is string-value computation; the sortedness clause is decided under C29',
     'C32': 'input/output behaviour of a hand-written option parser on arbitrary command strings',
     'C33': 'equivalence of two matchers over all token sequences (program equivalence)',
